@@ -18,7 +18,7 @@ from vlib.runner import CaseResult, Check, Part, exc_bucket, main
 @st.composite
 def cases(draw, tier):
     return dict(prog=draw(dsl.track_programs()), seed=draw(st.integers(0, 10**6)), backward=draw(st.sampled_from([True, True, True, False])),
-                warmup=draw(st.sampled_from([None, None, "backward", "forward-only"])), nnroot=draw(st.integers(0, 5)) == 0)
+                warmup=draw(st.sampled_from([None, None, "backward", "forward-only"])), nnroot=draw(st.integers(0, 5)) == 0, dtype=draw(st.sampled_from(["float32", "float32", "float32", "float64"])))
 
 
 def bitequal(a, b):
@@ -72,6 +72,11 @@ def run(c) -> CaseResult:
     feats = features(prog)
     res.labels += feats + (["backward"] if c["backward"] else ["forward-only"])
     m = dsl.build_module(prog, c["seed"])
+    dt = torch.float64 if c.get("dtype") == "float64" else torch.float32
+    if dt == torch.float64:
+        m = m.double()
+        m._verif_source = "# module.double(), float64 inputs\n" + dsl.build_class(prog)._verif_source
+        res.labels.append("dtype=float64")
     call = None
     if c.get("nnroot"):  # the program behind a root whose class is defined in torch.nn
         m = dsl.nn_root(m)
@@ -80,7 +85,7 @@ def run(c) -> CaseResult:
         def call(mod, d):
             return dsl.call(mod, prog, d, True)
     src = m._verif_source
-    inputs = dsl.make_inputs(prog, c["seed"])
+    inputs = dsl.make_inputs(prog, c["seed"], dtype=dt)
     # track_scales (documented) sets requires_grad on the float *tensors* it is called with; behind the nn.Sequential root the
     # arguments travel as one tuple, which it does not look into - there the harness sets the flag itself, as a caller would
     own_rg = bool(c.get("nnroot"))
@@ -90,7 +95,7 @@ def run(c) -> CaseResult:
         tm = track_scales(m)
         if c.get("warmup"):
             # an earlier call of the same tracked module (other inputs): the metrics must describe the *last* call only
-            run_module(tm, dsl.make_inputs(prog, c["seed"] + 1), c["warmup"] == "backward", own_rg, call)
+            run_module(tm, dsl.make_inputs(prog, c["seed"] + 1, dtype=dt), c["warmup"] == "backward", own_rg, call)
             res.labels.append("second-call-after-" + c["warmup"])
         outs1, pg1, ig1 = run_module(tm, inputs, c["backward"], own_rg, call)
         graph = tm.scales_graph()
